@@ -119,6 +119,37 @@ theorem ok_of_isSome {ε α : Type} {x : Except ε α} (h : x.toOption.isSome = 
 example : (∃ A, aggregateAll exList Agg.empty = .ok A) ∧ rB ∈ exList :=
   ⟨ok_of_isSome (by decide +kernel), by decide⟩
 
+/-- leaf kinds of a closed collection unfold item-wise within any fuel ≥ `defined.length + 2` -/
+theorem unfoldItems_leaf_fuel {T : Types} (hc : Closed T) : ∀ (E : List (Str × ItemKind)) (F : Forest) (n m : Nat),
+    (∀ x, x ∈ E → LeafK x.2) → unfoldItems (T.unfoldKind n) E = some F → T.defined.length + 2 ≤ m →
+    unfoldItems (T.unfoldKind m) E = some F
+  | [], F, n, m, _, h, _ => by simpa [unfoldItems] using h
+  | (nm, k) :: E, F, n, m, hl, h, hm => by
+    obtain ⟨t, fr, h1, h2, rfl⟩ := unfoldItems_cons nm k E F h
+    simp only [unfoldItems, hc.leaf_fuel (hl (nm, k) List.mem_cons_self) h1 hm,
+      unfoldItems_leaf_fuel hc E fr n m (fun x hx => hl x (List.mem_cons_of_mem _ hx)) h2 hm]
+
+/-- **`agg_upper_bound`, exactly as in DESIGN §7** (with `Types.unfold`, i.e. the default fuel of the
+aggregator's collection): `aggregateAll cs = .ok A →` for every contributor `(n, t, k)` the import
+`canon n` exists and `sub (unfold A (canon n)) (unfold t k)`. -/
+theorem agg_upper_bound_unfold (cs : List Req) (hf : fragB cs = true) (A : AggState)
+    (h : aggregateAll cs Agg.empty = .ok A) (r : Req) (hr : r ∈ cs) :
+    ∃ kind m c, amGet A.agg.imports (A.agg.canonical r.1) = some kind ∧ A.agg.types.unfold kind = some m ∧
+      r.2.1.unfold r.2.2 = some c ∧ sub m c = true := by
+  have hG := frag_invariant cs hf A h
+  obtain ⟨G, hmem, hfG⟩ := mem_withForests (fun r hr => ((fragB_spec hf).1 r hr).1) hr
+  obtain ⟨F, ⟨e, ti, h1, h2, h3, _⟩, hs⟩ := hG.tinv.sat (r, G) (by simpa using hmem)
+  refine ⟨.instance e, .instance F, .instance G, h1, ?_, (flatForest_spec hfG).2, hs⟩
+  obtain ⟨n, hn⟩ := h3.unf
+  have hlen : 1 ≤ A.agg.types.interfaces.length := Nat.lt_of_le_of_lt (Nat.zero_le _) (getElem?_lt h2)
+  have hfu : A.agg.types.fuel = (A.agg.types.fuel - 1) + 1 := by simp only [Types.fuel]; omega
+  simp only [Types.unfold]
+  rw [hfu]
+  simp only [Types.unfoldKind, h2,
+    unfoldItems_leaf_fuel hG.tinv.ainv.rinv.closed ti.exports F n (A.agg.types.fuel - 1) h3.leaf hn
+      (by simp only [Types.fuel]; omega)]
+  rfl
+
 /-- the merged import is the GREATEST type that satisfies all contributors of its class
 (needed for order independence; with `agg_upper_bound` it makes the merged import the greatest
 common subtype of the class) -/
